@@ -921,6 +921,49 @@ func vInitStoreScenarios() {
 			}
 			return out
 		}})
+	// O6 (C09): as O5, and a successor that got the directory goes on to add and flush. The
+	// segment files acknowledged by the predecessor's Close are never created a second time
+	// (an Open that waited for the lock must not work with what it saw before it waited).
+	vScenarios = append(vScenarios, &vScenario{Prop: "C09", Name: "store/O6-close-open-flush",
+		Body: func(x *vSchedExec) {
+			var h [3]*PersistentHybridIndex
+			st, err := vStoreOpen(x, vStoreCfg{Mem: 2, Thr: 1, Comp: 5, Tmpl: "v", Vec: "flat"})
+			if err != nil {
+				panic(err)
+			}
+			vStoreAdd(x, st, "main", 1, 0)
+			x.Spawn("A", func() { x.Op("A", "Close", func() ([]uint32, error) { return nil, st.Close() }) })
+			x.Spawn("B", func() { openOp(x, "B", &h, 1) })
+			x.Join()
+			if h[1] != nil {
+				x.Op("main", "Add(2)", func() ([]uint32, error) {
+					d := vStoreDocs[1]
+					return nil, h[1].AddWithID(2, vCopyVec(d.Vec), d.Text, vCloneMeta(d.Meta))
+				})
+				x.Op("main", "Flush", func() ([]uint32, error) { return nil, h[1].Flush() })
+				if x.free {
+					h[1].Close()
+				}
+			}
+			created := map[string]int{}
+			for _, op := range x.fs.Log {
+				if op.Kind == "create" && vSegRe.MatchString(op.Path) {
+					created[op.Path]++
+				}
+			}
+			for p, n := range created {
+				if n > 1 {
+					x.notes = append(x.notes, fmt.Sprintf("%s was created %d times", p, n))
+				}
+			}
+		},
+		Judge: func(x *vSchedExec) [][3]string {
+			var out [][3]string
+			for _, n := range x.notes {
+				out = append(out, [3]string{"segment-identifier-reused", "successor-of-a-closing-store", n})
+			}
+			return out
+		}})
 	vScenarios = append(vScenarios, &vScenario{Prop: "C17", Name: "own/O3-close-close",
 		Body: func(x *vSchedExec) {
 			st, err := vStoreOpen(x, vStoreCfg{Mem: 2, Thr: 1, Comp: 5, Tmpl: "v", Vec: "flat"})
